@@ -6,6 +6,7 @@ import (
 )
 
 type Gen struct {
+	IfFeatures   bool // nodes, uses and augments may carry if-feature statements
 	Posix        bool // string types may carry openconfig-extensions posix-patterns (load OCXText too)
 	TypeErrors   bool // also generate unknown and cyclic type references
 	grNames      []string
@@ -25,6 +26,19 @@ func (g *Gen) name(p string) string {
 }
 
 func (g *Gen) pick(n int) int { return g.R.Intn(n) }
+
+// iff draws if-feature statements: none most of the time, else 1-4 (three and more matter:
+// a slice of three has spare capacity, which is where copies that share it go wrong)
+func (g *Gen) iff(oneIn int) []string {
+	if !g.IfFeatures || g.pick(oneIn) > 0 {
+		return nil
+	}
+	var out []string
+	for n := []int{1, 2, 3, 3, 4}[g.pick(5)]; n > 0; n-- {
+		out = append(out, fmt.Sprintf("fz%d", g.pick(5)))
+	}
+	return out
+}
 
 // grName names a new grouping defined in scope s. One time in four it reuses the name of
 // a grouping defined elsewhere, where that is valid YANG: not in the same scope, not in an
@@ -366,7 +380,7 @@ func (g *Gen) fillScope(s *Scope, c ctx, budget int) {
 				}
 			}
 			if len(ok) > 0 {
-				s.Items = append(s.Items, &Item{Uses: ok[g.pick(len(ok))]})
+				s.Items = append(s.Items, &Item{Uses: ok[g.pick(len(ok))], UsesIfF: g.iff(3)})
 				continue
 			}
 		}
@@ -448,6 +462,9 @@ func (g *Gen) node(s *Scope, c ctx) *Node {
 	}
 	k := kinds[g.pick(len(kinds))]
 	n := &Node{Kind: k, Name: g.name("n")}
+	if k != "rpc" && k != "action" && k != "notification" {
+		n.IfF = g.iff(5)
+	}
 	shorthand := c.inChoice && k != "case"
 	if !c.inRPC && !shorthand && k != "case" && k != "rpc" && k != "action" && k != "notification" && g.pick(4) == 0 {
 		n.Config = boolp(g.pick(2) == 0)
@@ -647,7 +664,7 @@ func (g *Gen) Build() {
 		for _, n := range names {
 			path = append(path, Step{pfx, n})
 		}
-		a := &Augment{Path: path, File: f, Body: &Scope{File: f, Parent: f.Body}}
+		a := &Augment{Path: path, File: f, Body: &Scope{File: f, Parent: f.Body}, IfF: g.iff(3)}
 		cc := ctx{depth: 2, pk: "augment"}
 		for x := c.x; x != nil; x = x.Parent {
 			switch x.Kind {
